@@ -342,6 +342,9 @@ def check(run: common.Run):
             continue
         n_sweep += 1
         fail = oracle_case(mods, c["source"], safe=True)
+        if not fail and c.get("oracle") == "exec":          # round 5 witnesses: execution oracle, pipeline + rules
+            Pc = capture_preserve(mods, c["source"]) or set(k10.keys_of(c["source"]))
+            fail = exec_fail(mods, [], "corpus:" + c["id"], c["source"], Pc, ENV_RULES)
         if fail:
             fail["corpus"] = c["id"]
             failures.append(fail)
@@ -410,7 +413,11 @@ def check(run: common.Run):
               "each real rule x each module x preserve subsets (all subsets when <= 4 keys): protected "
               "definitions must survive; exact families additionally require every eligible unprotected one to "
               "go. Non-trivial = the rule changed the source / preserve set > 2 names / multi-name target; "
-              "distinct by (rule, preserve, source)."),
+              "distinct by (rule, preserve, source). Round 5: re-binding family (14 statement kinds binding / "
+              "re-declaring / unbinding one name: pairs, triples through del / bare annotation / except-as, module "
+              "and class scope): SurfaceEnvModel.run = names exec() leaves bound (None = NameError); outputs of "
+              "format_code(safe=True) and of 5 rules under the safe preserve set as env_rule_case (output imports, "
+              "preserved names bound at the end stay bound) and under the execution oracle (same kind of object)."),
         samples=[tcases[7][1][1], modules[3], modules[len(pool) + 5], modules[-1],
                  {"rule": rcases[11][1][1], "preserve": rcases[11][1][2], "source": rcases[11][1][3]}],
         exhaustive=False, exhaustive_part=n_exh, random_part=nrand, histogram=dict(hist),
@@ -425,12 +432,17 @@ def check(run: common.Run):
         trusted_base=common.TRUSTED_BASE_COMMON + [
             "harness/k10.py: ast -> SurfaceModel term converter and the AST surface oracle",
             "bound/top_surface/member_surface are definitions (validated against symtable and exec() on every run)",
+            "SurfaceEnvModel.run (final environment of binding events) is a definition, validated against exec() "
+            "on the re-binding family; harness/c07_env.py: statement -> event converter and the execution oracle",
             "ASCII identifiers only"],
     )
     run.assumptions += [
         "the theorems quantify over every oracle (usage analysis, naming, replacement) but only over the seven "
         "modelled rules; other pipeline stages are observed by the deterministic safe-mode sweep only",
-        "surface = syntactic reading of the property (direct children of the module / of a top-level class)"]
+        "surface = syntactic reading of the property (direct children of the module / of a top-level class); "
+        "round 5: a public name counts while the original still has it bound at the END of its body, and the kind of "
+        "object is compared where the last statement binding it is a def / class / assignment",
+        "T07.6-T07.9 speak about straight-line binding events; which statements a rule removes is an oracle (keep)"]
 
 
 ENV_RULES = ["RUndefine", "RPointless", "RDeleteUnused", "RAlign", "RDuplicate"]
